@@ -36,11 +36,16 @@ Src(kind, v) == [k |-> kind, v |-> v]
 (*   "limit"    attribute / event / link limits: 0 = record nothing (valid),  *)
 (*              negative = unlimited (documented meaning "U")                 *)
 (*   "timeout"  OTel Timeout: non-negative ms, 0 = no limit ("none")          *)
+(*   "xtimeout" exporter timeout: as "timeout"; the statement's clause about  *)
+(*              out-of-range values is scoped to the SDK settings, for the     *)
+(*              exporters it only says WHICH source the timeout is taken from: *)
+(*              a negative value taken from the deciding source may also be    *)
+(*              applied as it is (observed: no deadline at all, "none")        *)
 (*   "delay"    OTel Duration: non-negative ms, 0 = immediately ("fast")      *)
 (*   "enum"     compression: gzip | none, case-insensitive                    *)
 (*   "map"      headers: a whole map, replaced wholesale by a higher source   *)
 (* ------------------------------------------------------------------------ *)
-Types == {"size", "limit", "timeout", "delay", "enum", "map"}
+Types == {"size", "limit", "timeout", "xtimeout", "delay", "enum", "map"}
 
 IsValid(type, s) == s.k = "valid" \/ (type = "limit" /\ s.k = "zero")
 ValueOf(type, s) == IF s.k = "zero" THEN "Z" ELSE s.v
@@ -48,7 +53,8 @@ ValueOf(type, s) == IF s.k = "zero" THEN "Z" ELSE s.v
 (* documented meaning of an otherwise ill-formed value (empty set: none) *)
 Meaning(type, s) ==
   CASE s.k = "padded"                      -> {s.v}     \* valid value surrounded by blanks: may be trimmed
-    [] s.k = "zero" /\ type = "timeout"    -> {"none"}  \* OTel Timeout: 0 = no limit
+    [] s.k = "zero" /\ type \in {"timeout", "xtimeout"} -> {"none"}  \* OTel Timeout: 0 = no limit
+    [] s.k = "neg"  /\ type = "xtimeout"   -> {"none"}  \* exporters: outside the statement, applied as-is admitted
     [] s.k = "zero" /\ type = "delay"      -> {"fast"}  \* OTel Duration: 0 is a legal duration
     [] s.k = "neg"  /\ type = "limit"      -> {"U"}     \* Go docs: negative limit = unlimited
     [] s.k = "case" /\ type = "enum"       -> {s.v}     \* enum values SHOULD be case-insensitive
@@ -198,7 +204,8 @@ SamplerAllowed(srcs) ==
 TypeOf(setting) ==
   CASE setting = "headers"     -> "map"
     [] setting = "compression" -> "enum"
-    [] setting \in {"timeout", "bsp.timeout", "blrp.timeout"} -> "timeout"
+    [] setting = "timeout" -> "xtimeout"
+    [] setting \in {"bsp.timeout", "blrp.timeout"} -> "timeout"
     [] setting \in {"bsp.delay", "blrp.delay"} -> "delay"
     [] setting \in {"bsp.queue", "bsp.batch", "blrp.queue", "blrp.batch"} -> "size"
     [] OTHER -> "limit"
